@@ -355,6 +355,9 @@ func (o *Op) sites() []site {
 // Decorate returns every variant of op with exactly one decoration applied at
 // one site. argTypes gives the declared type of a field argument.
 func Decorate(op *Op, schema *gast.Schema) []*Op {
+	if op.Raw != "" {
+		return nil // curated operation texts are taken as they are
+	}
 	var out []*Op
 	n := len(op.sites())
 	emit := func(note string, f func(c *Op, s site) bool, i int) {
